@@ -1014,6 +1014,30 @@ impl<'a, 'b> Gen<'a, 'b> {
         }
     }
 
+    /// Compile-and-run batches only: a struct that has both an optional field of type `T` and a
+    /// required field of type `option<T>` (the same Rust type `Option<T>` with two different wire
+    /// contracts and two different introspection references), in either order, `T` being a custom
+    /// type that nothing else in the struct names.
+    fn option_twins(&mut self, defs: &mut Vec<Def>) {
+        if !self.t.chance(110) {
+            return;
+        }
+        let Some(target) = self.some_ref(false) else { return };
+        let name = self.def_name(TYPE_NAMES, ODD_TYPE_NAMES);
+        if !safe_type_ref(&name) {
+            return;
+        }
+        let opt = Field { pre: vec![], required: false, name: "maybe".into(), id: "1".into(), ty: target.clone() };
+        let req = Field { pre: vec![], required: true, name: "wrapped".into(), id: "2".into(), ty: Ty::Gen1("option", Box::new(target)) };
+        let mut fields = if self.t.bool() { vec![opt, req] } else { vec![req, opt] };
+        if self.t.chance(80) {
+            fields.push(Field { pre: vec![], required: self.t.bool(), name: "n".into(), id: "3".into(), ty: Ty::Kw("u32") });
+        }
+        self.types.push(name.clone());
+        self.exports.types.push(name.clone());
+        defs.push(Def::Struct { pre: vec![], name, body: StructBody { inner: vec![], fields, fallback: None } });
+    }
+
     pub fn schema(&mut self, name: &str) -> Model {
         self.exports.schema = name.to_string();
         let header = self.header();
@@ -1025,6 +1049,7 @@ impl<'a, 'b> Gen<'a, 'b> {
         }
         if self.cfg.rich && self.cfg.noise == 0 {
             self.cross_schema_key_chain(&mut defs);
+            self.option_twins(&mut defs);
         }
         Model { header, imports, defs }
     }
